@@ -137,6 +137,8 @@ func (e *tpExpr) render() string {
 	switch e.K {
 	case "t":
 		return termName(e.S)
+	case "eps":
+		return "%empty"
 	case "ref":
 		if len(e.Args) == 0 {
 			return sgName(e.N)
@@ -485,6 +487,18 @@ func (g *tpGen) alt(M, d int) *tpExpr {
 			s = &tpExpr{K: "cond", Pred: g.pred(M), Sub: []*tpExpr{s}}
 		}
 		e.Sub = append(e.Sub, s)
+	}
+	if r.Intn(5) == 0 { // an empty alternative, mostly guarded
+		var s *tpExpr = &tpExpr{K: "eps"}
+		if len(g.names(M)) > 0 && r.Intn(3) > 0 {
+			s = &tpExpr{K: "cond", Pred: g.pred(M), Sub: []*tpExpr{s}}
+		}
+		e.Sub = append(e.Sub, s)
+		if r.Intn(2) == 0 {
+			k := len(e.Sub) - 1
+			j := r.Intn(len(e.Sub))
+			e.Sub[k], e.Sub[j] = e.Sub[j], e.Sub[k]
+		}
 	}
 	return e
 }
